@@ -115,6 +115,10 @@ func famFault(tr *Trace, scratch string, seed int64, tier string, workers int, r
 	if tier == "quick" {
 		shapes = []string{"tiny", "odd", "big"}
 	}
+	if os.Getenv("VERIF_FAULT_ONLY") == "cli" { // only the runs of the built binary
+		ncli = famCli(tr, &id, scratch, nfpmBin, behaviours)
+		return M{"cases": id, "cli_runs": ncli}
+	}
 	var cases []faultCase
 	for _, f := range allFormats {
 		for _, signed := range []bool{false, true} {
@@ -267,12 +271,19 @@ func famFault(tr *Trace, scratch string, seed int64, tier string, workers int, r
 			c := baseCfg("srcpkg")
 			c.Entries = []Entry{{Type: "file", Src: "src/bin", Dst: "/usr/bin/tool"}, {Type: "config", Src: "src/app.conf", Dst: "/etc/srcpkg/app.conf", Tag: "deb"},
 				{Type: "file", Src: "src/extra.conf", Dst: "/etc/srcpkg/extra.conf", Tag: "rpm"}, {Type: "doc", Src: "src/empty", Dst: "/usr/share/doc/srcpkg/empty.txt"},
-				{Type: "tree", Src: "src/sub", Dst: "/usr/share/srcpkg/tree", Tag: "apk"}}
+				{Type: "tree", Src: "src/sub", Dst: "/usr/share/srcpkg/tree", Tag: "apk"},
+				{Type: "config|missingok", Src: "src/mok.conf", Dst: "/etc/srcpkg/mok.conf"}, {Type: "config|noreplace", Src: "src/nrp.conf", Dst: "/etc/srcpkg/nrp.conf"},
+				{Type: "config|missingok", Src: "src/mok2.conf", Dst: "/etc/srcpkg/mok2.conf", Tag: "ipk"},
+				{Type: "licence", Src: "src/lic.txt", Dst: "/usr/share/licenses/srcpkg/LICENSE"}, {Type: "readme", Src: "src/readme.txt", Dst: "/usr/share/doc/srcpkg/README"}}
 			c.Changelog = []ChEntry{{"1.2.3", 1500000000, "Jane Doe <jane@example.org>", []string{"a note"}}}
 			return c
 		}
 		c := mkcfg()
 		nodes := append(smallTree(), addScripts(newRng(seed), c, scriptSlots)...)
+		for _, extra := range []string{"src/mok.conf", "src/nrp.conf", "src/mok2.conf", "src/lic.txt", "src/readme.txt"} {
+			b := []byte("contents of " + extra + "\n")
+			nodes = append(nodes, Node{P: extra, Kind: "file", Mode: 0o644, Mt: 1500000000, Size: len(b), data: b, Cid: cidOf(b)})
+		}
 		type ref struct{ kind, name, path string }
 		var refs []ref
 		for i, e := range c.Entries {
@@ -460,6 +471,13 @@ func famCli(tr *Trace, id *int, scratch, bin, behaviours string) int {
 	c := baseCfg("clipkg")
 	nodes := append(smallTree(), addScripts(newRng(7), c, []string{"postinstall"})...)
 	c.Entries = []Entry{{Type: "file", Src: "src/bin", Dst: "/usr/bin/tool"}, {Type: "config", Src: "src/app.conf", Dst: "/etc/clipkg/app.conf"}}
+	// every format has an override block that changes its bytes: the tool must build the effective settings of the format it
+	// packages, however it came to know the format (-p or the target's extension)
+	c.Depends = []string{"base-dep"}
+	c.Ov = map[string]*OvCfg{}
+	for _, f := range allFormats {
+		c.Ov[f] = &OvCfg{Depends: []string{"dep-for-" + f}, Umask: 0o27}
+	}
 	exts := map[string]string{"deb": ".deb", "rpm": ".rpm", "apk": ".apk", "archlinux": ".pkg.tar.zst", "ipk": ".ipk"}
 	run := func(f, targetKind, fault string, withP bool, tlc *cliBehaviour) {
 		work := filepath.Join(scratch, fmt.Sprintf("cli-%d", *id+1))
